@@ -188,7 +188,7 @@ def is_primitive(a):
 # ----------------------------------------------------------------------------------------------
 # Correspondence: evaluate the model on generated shards inside Coq
 # ----------------------------------------------------------------------------------------------
-REPORT_RE = re.compile(r'=\s*\(\s*(\d+)\s*,\s*\[(.*?)\]\s*\)\s*:\s*nat\s*\*\s*list\s+nat', re.S)
+REPORT_RE = re.compile(r'=\s*\(\s*(\d+)(?:%nat)?\s*,\s*\[(.*?)\](?:%nat)?\s*\)\s*:\s*nat\s*\*\s*list\s+nat', re.S)   # %nat: printed when an imported file opened another scope
 
 
 def run_shards(pid, preamble, ctype, checker, terms, shard=300, timeout=600, tag='cases'):
